@@ -12,4 +12,4 @@ import (
 // library (yield hook at every function entry and loop iteration).
 const InnerYields = true
 
-func init() { vyield.Hook = sched.YieldInner }
+func init() { vyield.Hook, vyield.HookU = sched.YieldInner, sched.YieldAfterRelease }
